@@ -87,7 +87,7 @@ func runBehaviour(w World, id int, steps []Step) *Mismatch {
 		}
 		p := w.Do(st)
 		want := st.Str("panic")
-		if (want == "") != (p == "") || (want != "" && !strings.Contains(p, want)) {
+		if (want == "") != (p == "") || (want != "" && want != "rejected" && !strings.Contains(p, want)) {
 			mm = &Mismatch{id, w.Name(), i, st.Str("op"), "panic", want, p}
 			break
 		}
